@@ -1,4 +1,5 @@
 CONSTANTS NReq = 2  NConn = 2  Shapes <- ShapesPair  Pools = {0, 1, 2}  HTs = {FALSE, TRUE}
   TimerAfterDecode = TRUE  KF_BlankTimeoutReply = FALSE  KF_PacketTypeSetLate = FALSE  KF_TupDropsResult = FALSE
+  Filts = {"none"}  VG_PingThroughFilter = FALSE
 SPECIFICATION Spec
 INVARIANTS AtMostOnce NoStrayReply SafeSoFar AtQuiescence ExecutedAtMostOnce
